@@ -169,6 +169,49 @@ theorem view_lifetime_orig_fails : ¬ lifetime_statement .orig := by
   revert this
   decide
 
+/-! ### Buffers behind `arith.select` (double buffering) -/
+
+/-- The lifetime statement with the full notion of "still used": also through the result of an
+`arith.select` between buffers. FALSE of the code (finding C11-N2): `arith.select` is not in the list of
+view-like operations that `MiniMallocate` follows. -/
+def lifetime_statement_sel : Prop :=
+  ∀ (p : Prog) (bs : List Buf), lifetimes .fixed p = .ok bs →
+    ∀ b ∈ bs, ∀ v n t, AliasS (flat p) b.res v → (n, t) ∈ flat p → v ∈ n.ops → t ≤ b.stop
+
+/-- … it holds for every program without a select between memrefs (clause `NoSelect`). -/
+theorem lifetime_covers_sel_partial (p : Prog) (bs : List Buf) (h : lifetimes .fixed p = .ok bs)
+    (NoSelect : ∀ n ∈ flat p, n.1.kind ≠ .sel) :
+    ∀ b ∈ bs, ∀ v n t, AliasS (flat p) b.res v → (n, t) ∈ flat p → v ∈ n.ops → t ≤ b.stop := by
+  intro b hb v n t hal hmem hv
+  have hA : Alias (flat p) b.res v := by
+    clear hmem hv
+    induction hal with
+    | base => exact Alias.base
+    | step hm hf hw _ hvr ih =>
+      rcases hf with hf | hf
+      · exact Alias.step hm hf hw ih hvr
+      · exact absurd hf (NoSelect _ hm)
+  exact (lifetime_covers p bs h b hb).2 v n t hA hmem hv
+
+/-- C11-N2: `A; B; s = select c, A, B; alloc D; use D; use s`: the lifetimes of A and B end at the select
+(op 5), `s` is used at op 9 while D (allocated at op 6) may sit at A's address. -/
+theorem select_lifetime_fails : ¬ lifetime_statement_sel := by
+  intro h
+  let p : Prog := [.op [⟨.other, [], [0]⟩] false,
+    .alloc 1 ⟨some 0, some 16, 4⟩ (some (some 2)), .op [⟨.ucast, [1], [2]⟩] false,
+    .alloc 3 ⟨some 0, some 16, 4⟩ (some (some 4)), .op [⟨.ucast, [3], [4]⟩] false,
+    .op [⟨.sel, [0, 2, 4], [5]⟩] false,
+    .alloc 6 ⟨some 0, some 16, 4⟩ (some (some 7)), .op [⟨.ucast, [6], [7]⟩] false,
+    .op [⟨.other, [7], []⟩] false, .op [⟨.other, [5], []⟩] false, .op [⟨.other, [], []⟩] true]
+  have hl : lifetimes .fixed p = .ok [⟨1, 1, 5, 16, 4, 0, 2⟩, ⟨3, 3, 5, 16, 4, 0, 4⟩, ⟨6, 6, 8, 16, 4, 0, 7⟩] := by decide
+  have := h p _ hl ⟨1, 1, 5, 16, 4, 0, 2⟩ (by simp) 5 ⟨.other, [5], []⟩ 9
+    (AliasS.step (n := ⟨.sel, [0, 2, 4], [5]⟩) (t := 5) (w := 2) (by decide) (Or.inr rfl) (by decide)
+      (AliasS.step (n := ⟨.ucast, [1], [2]⟩) (t := 2) (w := 1) (by decide) (Or.inl (by decide)) (by decide)
+        AliasS.base (by decide)) (by decide))
+    (by decide) (by decide)
+  revert this
+  decide
+
 /-! ## Placement through the external solver -/
 
 /-- `minimalloc` / `auto` mode with fix F12, for every program, memory table and solver answer that
@@ -428,6 +471,80 @@ the `SolverContract` hypothesis of the theorems above. -/
 theorem contract_checker_sound (bufs : List Buf) (cap : Nat) (offs : List Nat)
     (h : contractOk bufs cap offs = true) : SolverContract bufs cap offs :=
   contractOk_sound bufs cap offs h
+
+/-! ## End to end: `memref-to-snax` sizes + `snax-allocate` placement ⇒ the bytes that are touched never collide -/
+
+/-- Static mode, composed with the size computation: take any two buffers `i < j` of the same memory in a
+successful static allocation whose sizes are the ones `memref-to-snax` computes for their layouts (any ranks,
+tilings, offsets, element sizes; clause `LayoutCovers` as in `size_bound_partial`). Then the last byte that any
+element of buffer `i` occupies lies below the first byte of every element of buffer `j`: no byte is ever
+touched through two buffers — for every pair of element indices. -/
+theorem static_touched_bytes_disjoint (mems : List Mem) (reqs : List Req) (out : List Placed)
+    (h : staticAlloc mems reqs = .ok out)
+    (i j : Nat) (hi : i < out.length) (hj : j < out.length) (hij : i < j) (hm : out[i].mem = out[j].mem)
+    (l₁ : Layout) (el₁ : Nat) (sh₁ : List Nat) (hs₁ : allocSize l₁ el₁ sh₁ = .ok (out[i].size : Int))
+    (hc₁ : LayoutCovers l₁.dims sh₁)
+    (l₂ : Layout) (el₂ : Nat) (sh₂ : List Nat) (hs₂ : allocSize l₂ el₂ sh₂ = .ok (out[j].size : Int))
+    (hc₂ : LayoutCovers l₂.dims sh₂) :
+    ∃ bs₁ bs₂, boundsAll l₁.dims sh₁ = .ok bs₁ ∧ boundsAll l₂.dims sh₂ = .ok bs₂ ∧
+      ∀ idx₁ idx₂, InShape idx₁ sh₁ → InShape idx₂ sh₂ →
+        out[i].addr + (l₁.offset * el₁ + byteAddr (stepsAll el₁ l₁.dims bs₁) bs₁ idx₁ + el₁) ≤
+          out[j].addr + (l₂.offset * el₂ + byteAddr (stepsAll el₂ l₂.dims bs₂) bs₂ idx₂) := by
+  obtain ⟨_, _, hpw⟩ := static_disjoint mems reqs out h
+  have hd := (List.pairwise_iff_getElem.1 hpw) i j hi hj hij hm
+  obtain ⟨bs₁, hb₁, hall₁⟩ := size_bound_partial l₁ el₁ sh₁ _ hs₁ hc₁
+  obtain ⟨bs₂, hb₂, _⟩ := size_bound_partial l₂ el₂ sh₂ _ hs₂ hc₂
+  refine ⟨bs₁, bs₂, hb₁, hb₂, ?_⟩
+  intro idx₁ idx₂ h₁ _
+  have := hall₁ idx₁ h₁
+  omega
+
+/-- Every byte touched through a statically placed buffer lies inside the window of its memory. -/
+theorem static_touched_bytes_in_window (mems : List Mem) (reqs : List Req) (out : List Placed)
+    (h : staticAlloc mems reqs = .ok out) (p : Placed) (hp : p ∈ out)
+    (l : Layout) (el : Nat) (sh : List Nat) (hs : allocSize l el sh = .ok (p.size : Int))
+    (hc : LayoutCovers l.dims sh) :
+    ∃ bs mem, boundsAll l.dims sh = .ok bs ∧ mems[p.mem]? = some mem ∧
+      ∀ idx, InShape idx sh → mem.start ≤ p.addr ∧
+        p.addr + (l.offset * el + byteAddr (stepsAll el l.dims bs) bs idx + el) ≤ mem.start + mem.cap := by
+  obtain ⟨_, hin, _⟩ := static_disjoint mems reqs out h
+  obtain ⟨_, _, mem, hmem, hlo, hhi⟩ := hin p hp
+  obtain ⟨bs, hb, hall⟩ := size_bound_partial l el sh _ hs hc
+  refine ⟨bs, mem, hb, hmem, ?_⟩
+  intro idx hidx
+  have := hall idx hidx
+  exact ⟨hlo, by omega⟩
+
+/-- Minimalloc / auto mode with the first-fit solver, composed with the size computation: two buffers of
+the same memory that are live at the same time (the earlier one, or a view or cast of it, is still used at or
+after the allocation of the later one, at any nesting depth), with sizes as `memref-to-snax` computes them
+for their layouts, never have a touched byte in common; no hypothesis about a solver. -/
+theorem minimalloc_touched_bytes_disjoint (mems : List Mem) (p : Prog) (r : MiniResult)
+    (h : miniMallocateFF .fixed mems p = .ok r)
+    (x y : Buf × Placed) (hx : x ∈ r.placed) (hy : y ∈ r.placed) (hm : x.1.mem = y.1.mem)
+    (hlt : x.1.start < y.1.start)
+    (hux : UsedAtOrAfter p x.1.res y.1.start) (huy : UsedAtOrAfter p y.1.res y.1.start)
+    (l₁ : Layout) (el₁ : Nat) (sh₁ : List Nat) (hs₁ : allocSize l₁ el₁ sh₁ = .ok (x.1.size : Int))
+    (hc₁ : LayoutCovers l₁.dims sh₁)
+    (l₂ : Layout) (el₂ : Nat) (sh₂ : List Nat) (hs₂ : allocSize l₂ el₂ sh₂ = .ok (y.1.size : Int))
+    (hc₂ : LayoutCovers l₂.dims sh₂) :
+    ∃ bs₁ bs₂, boundsAll l₁.dims sh₁ = .ok bs₁ ∧ boundsAll l₂.dims sh₂ = .ok bs₂ ∧
+      ∀ idx₁ idx₂, InShape idx₁ sh₁ → InShape idx₂ sh₂ →
+        x.2.addr + (l₁.offset * el₁ + byteAddr (stepsAll el₁ l₁.dims bs₁) bs₁ idx₁ + el₁) ≤
+            y.2.addr + (l₂.offset * el₂ + byteAddr (stepsAll el₂ l₂.dims bs₂) bs₂ idx₂) ∨
+        y.2.addr + (l₂.offset * el₂ + byteAddr (stepsAll el₂ l₂.dims bs₂) bs₂ idx₂ + el₂) ≤
+            x.2.addr + (l₁.offset * el₁ + byteAddr (stepsAll el₁ l₁.dims bs₁) bs₁ idx₁) := by
+  obtain ⟨_, hwin, hdis⟩ := minimalloc_firstfit_safe mems p r h
+  have hd := hdis x hx y hy hm hlt hux huy
+  have hsx := (hwin x hx).1
+  have hsy := (hwin y hy).1
+  obtain ⟨bs₁, hb₁, hall₁⟩ := size_bound_partial l₁ el₁ sh₁ _ hs₁ hc₁
+  obtain ⟨bs₂, hb₂, hall₂⟩ := size_bound_partial l₂ el₂ sh₂ _ hs₂ hc₂
+  refine ⟨bs₁, bs₂, hb₁, hb₂, ?_⟩
+  intro idx₁ idx₂ h₁ h₂
+  have := hall₁ idx₁ h₁
+  have := hall₂ idx₂ h₂
+  omega
 
 /-! ## Non-vacuity: concrete inputs meet the hypotheses -/
 
